@@ -160,5 +160,22 @@ int fam_mul(const vh_args_t *a) {
           vh_mul_case(sq ? (acc ? R_ADDSQR : R_SQR) : mp ? (acc ? R_ADDMP : R_MP) : (acc ? R_ADDMUL : R_MUL), SD[im], SD[il], SD[in], 0, 0, 64, vh_randint(0, 2) == 0);
           VH_CASE_END
         }
+  /* Four-Russians routes writing into a supplied result whose rows start at every word alignment (the tables are laid out
+   * with the same alignment as the result): result widths with an even and an odd number of words, not multiples of 64 */
+  if (vh_views) {
+    static const int RN[] = {100, 230, 70, 190, 128};
+    for (int w0 = 0; w0 < 4; w0++)
+      for (int in = 0; in < 5; in++)
+        for (int acc = 0; acc < 2; acc++, sidx++) {
+          if (!a->tier && (int)((w0 + in + acc + a->seed) % 2) != 0) continue;
+          if (!VH_SHARD(a, sidx)) continue;
+          vh_case_seed(a, sidx);
+          VH_CASE(sidx)
+          vh_force_w0 = w0;
+          vh_mul_case(acc ? R_ADDM4RM : R_M4RM, vh_pick((int[]){17, 40, 70}, 3), vh_pick((int[]){64, 70, 130}, 3), RN[in], 0, 0, vh_randint(0, 8), 0);
+          vh_force_w0 = -1;
+          VH_CASE_END
+        }
+  }
   return 0;
 }
